@@ -384,7 +384,7 @@ def run_shard(shard):
                 S, modeA, numbered = classify_stream(frs)
                 res["streams"] += 1
                 res["modeA" if modeA else "modeB"] += 1
-                ths = THRESHOLDS if (what == "frag-graph" or tier == "thorough") else [THRESHOLDS[0]]
+                ths = THRESHOLDS if what == "frag-graph" else ([THRESHOLDS[0], THRESHOLDS[3]] if tier == "thorough" else [THRESHOLDS[0]])
                 for tname, T in ths:
                     fits = T is None or all(len(f) <= T for f in frs if f in VALID)
                     if modeA and fits:
@@ -399,7 +399,7 @@ def run_shard(shard):
                             r = BG.explore(S, T, chk)
                         else:
                             r = dict(states=0, transitions=0, violations=[])
-                            for pieces in feeds(S, tier == "thorough"):
+                            for pieces in feeds(S, False):
                                 i = nd = 0
                                 b = BG.make_buffer(T)
                                 done = []
@@ -419,7 +419,7 @@ def run_shard(shard):
                         extra = {"mode": "A", "numbered": numbered}
                     else:
                         chk = make_check_b(S, tname, T, [], 0)
-                        r = explore_b(S, T, chk, "graph" if what == "frag-graph" else feeds(S, tier == "thorough"))
+                        r = explore_b(S, T, chk, "graph" if what == "frag-graph" else feeds(S, False))
                         extra = {"mode": "B", "numbered": [], "corrupt_end": 0}
                     res["states"] += r["states"]
                     res["transitions"] += r["transitions"]
